@@ -323,7 +323,12 @@ def check(tier):
         while q in par18:
             q = par18[q]
             if isinstance(q, ast.If):
-                rep.check(src(q.test) == "'number' in parameters", 'C18.listing', FILE, 'application', src(q.test)[:100], q.lineno,
+                qs_names = {a_.targets[0].id for a_ in ast.walk(app) if isinstance(a_, ast.Assign) and len(a_.targets) == 1 and isinstance(a_.targets[0], ast.Name)
+                            and any(isinstance(c_, ast.Call) and src(c_.func).endswith('parse_qs') for c_ in ast.walk(a_.value))}
+                t_ = q.test
+                present = isinstance(t_, ast.Compare) and len(t_.ops) == 1 and isinstance(t_.ops[0], ast.In) and isinstance(t_.left, ast.Constant) \
+                    and t_.left.value == 'number' and isinstance(t_.comparators[0], ast.Name) and t_.comparators[0].id in qs_names
+                rep.check(present, 'C18.listing', FILE, 'application', src(q.test)[:100], q.lineno,
                           'the scan of the formats is skipped under the condition `%s`: for such requests the page lists nothing although is_valid() of some '
                           'format accepts the number' % src(q.test)[:60])
             elif isinstance(q, (ast.For, ast.While, ast.Try, ast.With)):
